@@ -34,7 +34,8 @@ def vertices_from_moves(moves, start):
     """Absolute vertices (floats) reconstructed by the interpreter.
     `moves` are Machine.moves entries; unknown axes fall back to start."""
     out = []
-    for code, before, after, axes, others in moves:
+    for mv in moves:
+        after = mv[2]
         out.append(tuple(float(after[a]) if after[a] is not None else float("nan")
                          for a in ("X", "Y", "Z")))
     return out
